@@ -62,10 +62,11 @@ def case_adjoint(dim, kernel, dtype, dx, ncomp, mset, seed, shift="default", n_m
     P = (marker_set(mset, dim, shape, dx, np.float64, seed)[:, :n] + (comm.shift - dx / 2)).astype(real_t)
     Pc = P.copy()
     comm.locate(Pc)
-    comm.locate(Pc)  # the same caller-owned array handed in twice, as for a static marker set
     fails = []
     if not np.array_equal(Pc, P):
         fails.append(Fail(f"{kernel}:positions-modified", "the communicator modified the caller's marker-position array", dim=dim, set=mset))
+        return CaseResult(fails=fails, states=1, transitions=1, traces=1, outcome="positions-modified")
+    comm.locate(Pc)  # the same caller-owned array handed in twice, as for a static marker set
     ncell = int(np.prod(shape))
     fshape = shape if ncomp == 1 else (ncomp, *shape)
     lshape = (n,) if ncomp == 1 else (ncomp, n)
